@@ -3,6 +3,8 @@ import Perp.Props.ModelStep
 import Perp.Spec.Monitor
 import Perp.Spec.MonitorTx
 import Perp.Spec.Registry
+import Perp.Spec.Roles
+import Perp.Spec.Scope
 import Perp.Model.Fault
 import Driver.WorldParse
 
@@ -37,6 +39,27 @@ structure WHist where
       cumulative premium fraction at the moment the position's owner last traded on it, withdrew margin from it or
       partially closed it (the events at which C11 says the funding is charged and the checkpoint moves) -/
   ghostChk : List (Nat × Nat × Int) := []
+  /-- what the deployment was ASKED to create, per vAMM id: the fields of the `CFG` line's `v<id>.init` token
+      (quote reserve, base reserve, funding period, toll, spread, fluctuation limit, holding cap, OI cap, registered, opened) -/
+  inits : List (Nat × List Nat) := []
+
+/-- the deployment's instantiate / wiring parameters against the first observation of the deployed contracts: every field the
+    deployment passed must be the field the contract stores (a vAMM whose `instantiate` crosses two ratios of the same type, or
+    drops one, answers every later query consistently with its OWN stored configuration — only the message it was sent tells) -/
+def deployChecks (inits : List (Nat × List Nat)) (w : World) : List (String × String) :=
+  (inits.map (fun (iv : Nat × List Nat) =>
+    match w.vamm? iv.1, iv.2 with
+    | some x, [q, b, period, toll, spread, fluct, cap, oic, registered, opened] =>
+      (if x.st.quote != q || x.st.base != b then [("C01", "reserves")] else [])
+      ++ (if x.cfg.fundingPeriod != period then [("C11", "funding-period")] else [])
+      ++ (if x.cfg.toll != toll then [("C12", "toll-ratio")] else [])
+      ++ (if x.cfg.spread != spread then [("C12", "spread-ratio")] else [])
+      ++ (if x.cfg.fluct != fluct then [("C15", "fluctuation-limit")] else [])
+      ++ (if x.cfg.holdingCap != cap then [("C20", "holding-cap")] else [])
+      ++ (if x.cfg.oiCap != oic then [("C20", "open-interest-cap")] else [])
+      ++ (if w.ifund.vamms.contains iv.1 != (registered != 0) then [("C14", "registered")] else [])
+      ++ (if x.st.isOpen != (opened != 0) then [("C14", "open")] else [])
+    | _, _ => [])).flatten
 
 def txKind (kv : KV) : String := kv.str "msg"
 
@@ -147,6 +170,44 @@ def errTag (e : Err) : String :=
   | .overflow => "overflow" | .divZero => "divzero" | .panic => "panic" | .unauthorized => "unauthorized"
   | .guard c => s!"guard{c}" | .subcall c => s!"subcall{c}"
 
+/-- coverage only: the error of the FIRST failing sub-call inside an engine transaction that the model rejects with
+    `.subcall id` (the reply handler turns every sub-call failure into that code; the guard that fired inside the vAMM, the
+    token or the insurance fund is lost in the model's result).  Walks the response exactly as `World.execSubs` does. -/
+def firstSubErr : Nat → World → Nat → List SubMsg → Option Err
+  | 0, _, _, _ => none
+  | _, _, _, [] => none
+  | fuel + 1, w, c, s :: rest =>
+    match World.execMsg World.FUEL w c s.msg with
+    | .error e => some e
+    | .ok (w1, ev) =>
+      if s.replyOn = .always ∨ s.replyOn = .success then
+        match Engine.replyOk w1.q w1.engine w1.env s.id ev with
+        | .ok (e2, subs2) =>
+          let w2 := { w1 with engine := e2 }
+          match firstSubErr fuel w2 c subs2 with
+          | some e => some e
+          | none =>
+            match World.execSubs World.FUEL w2 c subs2 with
+            | .ok w3 => firstSubErr fuel w3 c rest
+            | .error _ => none
+        | .error _ => none
+      else firstSubErr fuel w1 c rest
+
+/-- the inner cause of a `.subcall` rejection of an engine transaction (coverage tag `…>guardNN`) -/
+def innerCause (w0 : World) (env : Env) (sender : Nat) (funds : Engine.Funds) (tx : World.Tx) : Option Err :=
+  let w := { w0 with env := env, log := [] }
+  match tx with
+  | .engine m =>
+    let w1 := if w.engine.cfg.native ∧ funds.amount ≠ 0 then
+        match World.execMsg World.FUEL w sender (.bankSend ENGINE funds.amount) with
+        | .ok r => r.1
+        | .error _ => w
+      else w
+    match Engine.execute w1.q w1.engine env sender funds m with
+    | .ok (e', subs) => firstSubErr 12 { w1 with engine := e' } ENGINE subs
+    | .error _ => none
+  | _ => none
+
 /-- `src=<h>:<k>:…` on a search mini-history: the history it continues -/
 def srcHist (kv : KV) : Option Nat :=
   match kv.get? "src" with
@@ -234,8 +295,12 @@ def handleWCfg (acc : Acc) (prev : WHist) (kv : KV) (_line : String) : Acc × WH
   let inherits := srcHist kv == some prev.hist || (kv.get? "src").isSome && prev.srcOf == srcHist kv
   let log := if inherits then prev.liqLog else []
   let tlog := if inherits then prev.tradeLog else []
+  let inits : List (Nat × List Nat) := [10, 11, 12, 13].filterMap (fun (id : Nat) =>
+    match kv.get? s!"v{id}.init" with
+    | some t => some (id, ((t.splitOn ":").take 10).map (fun x => x.toNat?.getD 0))
+    | none => none)
   (acc, { alive := kv.bool "setup_ok", hist := kv.nat "h", liqLog := log, baseLog := log, tradeLog := tlog, baseTrade := tlog,
-          srcOf := match srcHist kv with | some h => some h | none => none })
+          srcOf := match srcHist kv with | some h => some h | none => none, inits := inits })
 
 def handleWTx (acc : Acc) (h : WHist) (kv : KV) (line : String) : Acc × WHist :=
   (acc, { h with pending := some (kv, line) })
@@ -258,6 +323,8 @@ def handleWObs (acc : Acc) (h : WHist) (kv : KV) (_line : String) : Acc × WHist
         (obsAllInvFails obs).foldl (fun a tag =>
           (propsOfInvTag tag).foldl (fun a p => a.report "DISAGREE" p s!"hyp:deployed-but-not-allinv:{tag}" _line) a) acc
       else acc
+    let acc := if h.srcOf.isSome then acc else
+      (deployChecks h.inits obs.w).foldl (fun (a : Acc) pt => a.report "SPECFAIL" pt.1 s!"deploy:stored-{pt.2}-differs-from-the-instantiate-message" _line) acc
     let acc := match parseQp kv with
       | some post => (qpChecks "deploy" 0 (.ifShutdown) none post obs.w).foldl (fun (a : Acc) t => a.report "SPECFAIL" "C10" t _line) acc
       | none => acc
@@ -358,11 +425,14 @@ def handleWObs (acc : Acc) (h : WHist) (kv : KV) (_line : String) : Acc × WHist
         else s!"[{(e.take 32).toString}]"
       -- … and whether the reference model (which mirrors the unchanged code, known defects included)
       -- rejects the same call: a listed finding is pinned to the states in which the model fails too
+      -- (a liquidation that the reference model rejects too is a LISTED finding only on a configuration the engine accepts: with a
+      -- stored ratio outside 0..100 % the model's rejection says nothing about the unchanged code, which never stores one)
+      let cfgInRange := Perp.Spec.Monitor.engineConfigB h.last.w.engine.cfg
       let modelVerdict : String :=
         match World.applyTx h.last.w env sender funds tx with
         | .ok _ => "{model-accepts}"
-        | .error _ => "{model-rejects}"
-      let acc := (allChecks step ++ extraChecks step ++ extraChecks2 step ++ extraChecks3 step ++ extraChecks4 step).foldl (fun a pc =>
+        | .error _ => if cfgInRange then "{model-rejects}" else "{model-rejects,stored-engine-ratio-out-of-range}"
+      let acc := (allChecks step ++ extraChecks step ++ extraChecks2 step ++ extraChecks3 step ++ extraChecks4 step ++ extraChecks5 step ++ extraChecks6 step).foldl (fun a pc =>
         pc.2.foldl (fun a tag =>
           a.report "SPECFAIL" pc.1 (if pc.1 == "C07" then s!"{kind}:{tag}{errClass}{modelVerdict}" else s!"{kind}:{tag}") tline) a) acc
       -- C14: the insurance fund's membership queries agree with its stored registry (after every transaction)
@@ -436,6 +506,12 @@ def handleWObs (acc : Acc) (h : WHist) (kv : KV) (_line : String) : Acc × WHist
               (slicesOf kind tag).foldl (fun a p => a.report "DISAGREE" p s!"{kind}:state:{tag}" tline) a) acc
         | .error e =>
           let acc := acc.cover s!"{kind}:{errTag e}"
+          let acc := match e with
+            | .subcall _ =>
+              (match innerCause h.last.w env sender funds tx with
+               | some ie => acc.cover s!"{kind}:{errTag e}>{errTag ie}"
+               | none => acc)
+            | _ => acc
           if ok then
             (slicesOfModelErr kind e).foldl (fun a p => a.report "DISAGREE" p s!"{kind}:accept(model-err:{errTag e},impl-ok)" tline) acc
           else acc
